@@ -36,14 +36,24 @@ def run(ctx):
     stage(ctx, ["header", 1, 8], "FactsTrace", "header", "header")
     stage(ctx, ["cgr", s, 300 if big else 90, 1500], "FactsTrace", "cgr", "cgr")
     stage(ctx, ["batch", s], "FactsTrace", "batch", "orec")
+    stage(ctx, ["threads", s], "FactsTrace", "two python threads on the same objects", "eq")
     # bit-exact agreement of the binding with the Rust core on the same records (CGR coordinates and oligo vectors before
     # rounding): both sides print the f64 bit patterns, the check hashes them, the specification demands equality
     import hashlib, struct, sys
     ev = []
-    for tag, extra in (("dirty", []), ("clean", ["clean"])):
+    import random
+    for tag, extra in (("dirty", []), ("clean", ["clean"]), ("long", None)):
         fb = ctx.path("bits_%s.fa" % tag)
-        vlib.kvh(["gen", "fasta", s + 11, 40 if big else 14, 400, fb] + extra)
-        for size in (1, 3, 1000):
+        if extra is None:
+            # strings of more than 2^20 and more than 2^16 characters (each ends in N: the CGR of both sides refuses them, the
+            # oligo vectors are compared)
+            rnd = random.Random(s)
+            with open(fb, "w") as f:
+                for name, n in (("big", 1_300_000 + rnd.randrange(1000)), ("mid", 70_000 + rnd.randrange(1000)), ("small", 9)):
+                    f.write(">%s\n%sN\n" % (name, "".join(rnd.choices("ACGTacgtu", k=n))))
+        else:
+            vlib.kvh(["gen", "fasta", s + 11, 40 if big else 14, 400, fb] + extra)
+        for size in ((1, 3, 1000) if extra is not None else (1,)):
             pyo = ctx.path("bits_py.ndjson")
             p = fc.pydriver(ctx, ["bits", fb, size, 4], pyo)
             if p.returncode != 0:
